@@ -129,6 +129,18 @@ CLAIMED['C03'] = dict(
          'conformant conversations; cuts in one peer turn at a time; multi-PDU turns get one cut in the quick tier.',
     design='5/C03')
 
+CLAIMED['C13'] = dict(
+    text='The real provider loop runs over the simulated transport for every conversation of the corpus (both roles): the '
+         'peer disconnects after a symbolic byte prefix of each of its turns (all prefixes at once); the peer stays silent '
+         'at every point where ARTIM is armed while the clock advances by a symbolic dt per iteration (time is a solver '
+         'variable: before / at / after the 10 s limit); the termination flag is raised at a symbolic iteration. Asserted: '
+         'no blocking call on a silent open connection, idle state, transport closed and released, ARTIM stopped, the user '
+         'told if an association had been indicated, bounded time after arming, exit event set.',
+    note=TRUSTED + 'Simulated transport: a recv() that would block for ever raises Hang; scenario corpus of 9 conversations + 7 '
+         'silence points; the user issues nothing after being told the association ended; two-thread kill() handshake '
+         'outside the claim.',
+    design='5/C13')
+
 NOT_YET = 'check not built yet in this revision (see DESIGN.md section 5 for the plan)'
 
 NOT_APPLICABLE = {}
